@@ -283,5 +283,5 @@ def inconclusive(m, tier):
 TECHNIQUE = "exhaustive ordering lattice checked against the RFC 9074 decision table (R6), with pairwise monotonicity"
 LEVEL_TEXT = ("All 512 orderings (with equalities) of the two acknowledgements and the snooze around the trigger are built as real components for every "
               "trigger kind, local-zone setting, Thunderbird flag and provider; acknowledged, reported trigger, is_active, active and the admissible error "
-              "are compared with a 12-line decision table, and each acknowledgement is moved later to check monotonicity. Complete for the lattice.")
+              "are compared with a 12-line decision table, and each acknowledgement is moved later to check monotonicity. Complete for the lattice. A third of the cells set their values through acknowledge_until/snooze_until after earlier calls with other values; one trigger kind lies in the repeated hour at the end of daylight time.")
 LEVEL_NOTE = "trusts vmon/refs/alarms.py; instants between lattice points are only sampled"
